@@ -8,7 +8,7 @@
 static bool samePoint(const double *a, const double *b, int d){ for (int j=0;j<d;j++) if (std::fabs(a[j] - b[j]) > 1e-12) return false; return true; }
 
 int main(int argc, char **argv){
-  GridSpec g = parseSpec(argv[1]); int finish = atoi(argv[2]);
+  GridSpec g = parseSpec(argv[1]); int finish = atoi(argv[2]); int pseed = argc > 3 ? atoi(argv[3]) : 0; int cutmode = argc > 4 ? atoi(argv[4]) : 0;   // cutmode 1: every sample is its own delivery (only the order is symbolic)   // pseed picks the root permutation of the exploration
   int d = g.dims, outs = g.outputs;
   TasmanianSparseGrid ref; makeGrid(ref, g);
   std::vector<double> target = ref.getPoints(); int N = ref.getNumPoints();
@@ -16,7 +16,7 @@ int main(int argc, char **argv){
   ref.loadNeededValues(model.values(target, d));               // the one-batch load
   fpsym_note("target_points", N);
   // arrival order: sort by symbolic priorities (insertion sort: its comparisons are the path classes = permutations)
-  std::vector<double> prio(N); for (int i=0;i<N;i++) prio[i] = fpsym_symbolic(std::fmod(0.6180339887 * (i + 1) * (1 + atoi(getenv("VERIF_SEED") ? getenv("VERIF_SEED") : "0") % 7), 1.0), 10 + i, 0.0, 1.0);
+  std::vector<double> prio(N); for (int i=0;i<N;i++) prio[i] = fpsym_symbolic(std::fmod(0.6180339887 * (i + 1) * (1 + pseed) + 0.137 * pseed * ((i * 7 + 3) % 5), 1.0), 10 + i, 0.0, 1.0);
   std::vector<int> order(N); for (int i=0;i<N;i++) order[i] = i;
   for (int i=1;i<N;i++){ int k = i; while (k > 0 && prio[order[k]] < prio[order[k-1]]){ std::swap(order[k], order[k-1]); k--; } }
   // history class of a recorded finding (Global / Fourier): some sample arrives before a sample that belongs to a strictly lower tensor
@@ -41,7 +41,7 @@ int main(int argc, char **argv){
     int i = order[t];
     bx.insert(bx.end(), target.begin() + (size_t) i * d, target.begin() + (size_t) (i + 1) * d);
     const std::vector<double> &v = model.at(pointAt(target, d, i)); by.insert(by.end(), v.begin(), v.end());
-    bool cut = (t == N - 1) || fpsym_flag(200 + t, (t % 3) == 1);
+    bool cut = (t == N - 1) || cutmode == 1 || fpsym_flag(200 + t, (t % 3) == 1);
     if (!cut) continue;
     grid.loadConstructedPoints(bx, by); delivered += (int) bx.size() / d; bx.clear(); by.clear();
     fpsym_check(grid.isUsingConstruction(), "construction stays active between deliveries");
